@@ -195,7 +195,7 @@ func (c *compiler) evalFunctionLiteral(node *ast.FunctionLiteral) (interface{}, 
 func (c *compiler) evalPrefixExpression(node *ast.PrefixExpression) (interface{}, error) {
 	res, err := c.evalExpression(node.Right)
 	if err != nil {
-		if _, ok := err.(*ErrUnknownIdentifier); !ok {
+		if !isUnknownOperand(node.Right, err) {
 			return nil, err
 		}
 	}
@@ -211,7 +211,7 @@ func (c *compiler) evalPrefixExpression(node *ast.PrefixExpression) (interface{}
 func (c *compiler) evalIfExpression(node *ast.IfExpression) (interface{}, error) {
 	con, err := c.evalExpression(node.Condition)
 	if err != nil {
-		if _, ok := err.(*ErrUnknownIdentifier); !ok {
+		if !isUnknownOperand(node.Condition, err) {
 			return nil, err
 		}
 	}
@@ -228,7 +228,7 @@ func (c *compiler) evalElseAndElseIfExpressions(node *ast.IfExpression) (interfa
 	for _, eiNode := range node.ElseIf {
 		eiCon, err := c.evalExpression(eiNode.Condition)
 		if err != nil {
-			if _, ok := err.(*ErrUnknownIdentifier); !ok {
+			if !isUnknownOperand(eiNode.Condition, err) {
 				return nil, err
 			}
 		}
@@ -243,6 +243,18 @@ func (c *compiler) evalElseAndElseIfExpressions(node *ast.IfExpression) (interfa
 	}
 
 	return r, nil
+}
+
+// isUnknownOperand reports whether err says that the operand itself is an
+// unknown identifier, the one fault conditions and the operators !, ==, !=,
+// && and || treat as nil. Any other error, including an unknown identifier
+// nested deeper inside the operand, is a failure of the whole expression.
+func isUnknownOperand(operand ast.Expression, err error) bool {
+	if _, ok := err.(*ErrUnknownIdentifier); !ok {
+		return false
+	}
+	_, ok := operand.(*ast.Identifier)
+	return ok
 }
 
 func (c *compiler) isTruthy(i interface{}) bool {
@@ -452,12 +464,13 @@ func (c *compiler) evalIdentifier(node *ast.Identifier) (interface{}, error) {
 }
 
 func (c *compiler) evalInfixExpression(node *ast.InfixExpression) (interface{}, error) {
+	toleratesUnknown := node.Operator == "==" || node.Operator == "!=" ||
+		node.Operator == "||" || node.Operator == "&&"
+
 	lres, err := c.evalExpression(node.Left)
-	if err != nil &&
-		node.Operator != "==" && node.Operator != "!=" &&
-		node.Operator != "||" && node.Operator != "&&" {
+	if err != nil && !(toleratesUnknown && isUnknownOperand(node.Left, err)) {
 		return nil, err
-	} // nil lres is acceptable only for '==', '!=', and logical operators
+	} // an unknown identifier is acceptable only for '==', '!=', and logical operators
 
 	switch { // fast return
 	case node.Operator == "&&" && !c.isTruthy(lres):
@@ -467,11 +480,9 @@ func (c *compiler) evalInfixExpression(node *ast.InfixExpression) (interface{}, 
 	}
 
 	rres, err := c.evalExpression(node.Right)
-	if err != nil &&
-		node.Operator != "==" && node.Operator != "!=" &&
-		node.Operator != "||" && node.Operator != "&&" {
+	if err != nil && !(toleratesUnknown && isUnknownOperand(node.Right, err)) {
 		return nil, err
-	} // nil rres is acceptable only for '==', '!=', and logical operators
+	} // an unknown identifier is acceptable only for '==', '!=', and logical operators
 
 	switch node.Operator {
 	case "&&", "||":
